@@ -13,8 +13,9 @@ Theorems over `Model/Transport.lean`:
    (`ack_changes_without_discipline`);
 3. identifiers: the allocators never return an id that is live (`nextSessId_fresh`,
    `nextExchId_fresh`), for every table state; responder exchanges are opened only when no live
-   exchange has that (id, role) (`postRecv_new_only_if_unmatched`); hence (id, role) stays unique
-   among the live exchanges of a session along every history (`exchUniq_run`).
+   exchange has that (id, role) (`exchUniq_postRecv`); hence (id, role) stays unique
+   among the live exchanges of a session under every receive, initiate and drop step
+   (`exchUniq_postRecv`, `initiate_keeps_uniq`, `exchUniq_removeExch`).
 
 The model's counters are unbounded naturals; the Rust `u32` send counter starts below 2^28 and the
 correspondence holds while it stays below 2^32 (stated in `docs/C15.md`).
@@ -372,5 +373,158 @@ responder-role exchanges lets the allocator return the id of a live initiator ex
 example : (allocLoop [] 65536 0x1234).1 = 0x1234 := by decide
 example : (allocLoop [0x1234] 65536 0x1234).1 = 0x1235 := by
   unfold allocLoop; simp [allocLoop, bump]
+
+/-! ## 4. (id, role) stays unique among the live exchanges of a session -/
+
+/-- on a session no two live exchanges share (exchange id, role) -/
+def ExchUniq (s : Sess) : Prop :=
+  ∀ i j e f, s.slot i = some e → s.slot j = some f → e.id = f.id →
+    e.role.isResponder = f.role.isResponder → i = j
+
+theorem exchUniq_fresh (uid ctr : Nat) : ExchUniq ({ uid := uid, ctr := ctr } : Sess) := by
+  intro i j e f hi; simp [Sess.slot] at hi
+
+/-- slots of `s'` are slots of `s` with the same key, index by index -/
+theorem exchUniq_of_keys (s s' : Sess) (hu : ExchUniq s)
+    (hk : ∀ k e', s'.slot k = some e' → ∃ e, s.slot k = some e ∧ e.id = e'.id ∧ e.role.isResponder = e'.role.isResponder) :
+    ExchUniq s' := by
+  intro i j e f hi hj hid hrole
+  obtain ⟨e0, he0, h1, h2⟩ := hk i e hi
+  obtain ⟨f0, hf0, h3, h4⟩ := hk j f hj
+  exact hu i j e0 f0 he0 hf0 (by rw [h1, h3, hid]) (by rw [h2, h4, hrole])
+
+/-- **Received messages keep (id, role) unique**: a responder exchange is opened only when no live
+exchange has the header's key. -/
+theorem exchUniq_postRecv (s : Sess) (h : RxHdr) (now : Nat) (hu : ExchUniq s) :
+    ExchUniq (s.postRecv h now).1 := by
+  have hspec := postRecv_effect s h now
+  unfold RecvSpec at hspec
+  cases hr : (s.postRecv h now).2 with
+  | error er =>
+    have := hspec.2.2 er hr
+    exact exchUniq_of_keys s _ hu (fun k e' hk => ⟨e', by rw [← this k]; exact hk, rfl, rfl⟩)
+  | ok b =>
+    cases b with
+    | false =>
+      obtain ⟨i, e, m, _, hs, hs', hrest⟩ := hspec.1 hr
+      apply exchUniq_of_keys s _ hu
+      intro k e' hk
+      by_cases hki : k = i
+      · subst hki
+        rw [hs'] at hk
+        simp only [Option.some.injEq] at hk
+        subst hk
+        exact ⟨e, hs, rfl, rfl⟩
+      · exact ⟨e', by rw [← hrest k hki]; exact hk, rfl, rfl⟩
+    | true =>
+      obtain ⟨hg, hi, _, _, i0, m, hfree, hnew, hrest⟩ := hspec.2.1 hr
+      have hnone := getExchForRx_none s h hg
+      intro i j e f hsi hsj hid hrole
+      by_cases h1 : i = i0 <;> by_cases h2 : j = i0
+      · rw [h1, h2]
+      · exfalso
+        subst h1
+        rw [hnew] at hsi
+        simp only [Option.some.injEq] at hsi
+        subst hsi
+        rw [hrest j h2] at hsj
+        exact hnone j f hsj ⟨by simpa using hid.symm, by rw [← hrole, hi]; rfl⟩
+      · exfalso
+        subst h2
+        rw [hnew] at hsj
+        simp only [Option.some.injEq] at hsj
+        subst hsj
+        rw [hrest i h1] at hsi
+        exact hnone i e hsi ⟨by simpa using hid, by rw [hrole, hi]; rfl⟩
+      · rw [hrest i h1] at hsi
+        rw [hrest j h2] at hsj
+        exact hu i j e f hsi hsj hid hrole
+
+theorem mem_liveInitIds (s : Sess) (j : Nat) (f : Exch) (hs : s.slot j = some f)
+    (hr : f.role.isResponder = false) : f.id ∈ liveInitIds s := by
+  unfold liveInitIds
+  rw [List.mem_filterMap]
+  refine ⟨some f, List.mem_of_getElem? ((slot_eq_some s j f).1 hs), ?_⟩
+  simp [hr]
+
+/-- **Initiated exchanges keep (id, role) unique**: `initiate_for_session` takes its id from the
+allocator, which (`nextExchId_fresh`) avoids the ids of all live initiator exchanges. -/
+theorem exchUniq_addInit (s s' : Sess) (id i : Nat) (hu : ExchUniq s) (hfresh : id ∉ liveInitIds s)
+    (ha : s.addExch id .io = some (s', i)) : ExchUniq s' := by
+  obtain ⟨hfree, _, hsl⟩ := addExch_slot s s' id .io i ha
+  intro a b e f hsa hsb hid hrole
+  rw [hsl a] at hsa
+  rw [hsl b] at hsb
+  by_cases h1 : a = i <;> by_cases h2 : b = i
+  · rw [h1, h2]
+  · exfalso
+    simp only [h1, ↓reduceIte, Option.some.injEq] at hsa
+    simp only [h2, ↓reduceIte] at hsb
+    subst hsa
+    apply hfresh
+    have := mem_liveInitIds s b f hsb (by rw [← hrole]; rfl)
+    have hid' : id = f.id := hid
+    rw [hid']; exact this
+  · exfalso
+    simp only [h2, ↓reduceIte, Option.some.injEq] at hsb
+    simp only [h1, ↓reduceIte] at hsa
+    subst hsb
+    apply hfresh
+    have := mem_liveInitIds s a e hsa (by rw [hrole]; rfl)
+    have hid' : e.id = id := hid
+    rw [← hid']; exact this
+  · simp only [h1, ↓reduceIte] at hsa
+    simp only [h2, ↓reduceIte] at hsb
+    exact hu a b e f hsa hsb hid hrole
+
+/-- the ids of a session's live initiator exchanges are among the table's -/
+theorem liveInitIds_sub (t : Table) (s : Sess) (hs : s ∈ t.sessions) (x : Nat) (hx : x ∈ liveInitIds s) :
+    x ∈ t.liveInitExchIds := by
+  unfold Table.liveInitExchIds
+  exact List.mem_flatMap.2 ⟨s, hs, hx⟩
+
+theorem setDropped_isResponder (r : RoleSt) : r.setDropped.isResponder = r.isResponder := by
+  cases r <;> rfl
+
+/-- dropping an exchange keeps (id, role) unique -/
+theorem exchUniq_removeExch (s : Sess) (i : Nat) (hu : ExchUniq s) : ExchUniq (s.removeExch i).1 := by
+  apply exchUniq_of_keys s _ hu
+  intro k e' hk
+  unfold Sess.removeExch at hk
+  split at hk
+  · exact ⟨e', hk, rfl, rfl⟩
+  · rename_i e he
+    split at hk
+    · rw [slot_set] at hk
+      split at hk
+      · rename_i hik
+        subst hik
+        split at hk
+        · simp only [Option.some.injEq] at hk
+          subst hk
+          exact ⟨e, he, rfl, (setDropped_isResponder e.role).symm⟩
+        · simp at hk
+      · exact ⟨e', hk, rfl, rfl⟩
+    · rw [slot_set] at hk
+      split at hk
+      · split at hk <;> simp at hk
+      · exact ⟨e', hk, rfl, rfl⟩
+
+
+/-- **Locally chosen exchange ids are unique among the live exchanges of their role**: for every
+table (allocator seeded, fewer than 65535 live initiator exchanges — the table holds at most
+`maxSessions · maxExchanges`), giving a session of the table a new initiator exchange with the id
+`get_next_exch_id` returns keeps (id, role) unique on that session. -/
+theorem initiate_keeps_uniq (t : Table) (s s' : Sess) (i : Nat) (hs : s ∈ t.sessions) (hu : ExchUniq s)
+    (h1 : 1 ≤ t.nextExch) (h2 : t.nextExch ≤ 65535) (hlen : t.liveInitExchIds.length < 65535)
+    (ha : s.addExch t.nextExchId.2 .io = some (s', i)) : ExchUniq s' :=
+  exchUniq_addInit s s' _ i hu
+    (fun hin => nextExchId_fresh t h1 h2 hlen (liveInitIds_sub t s hs _ hin)) ha
+
+/-- non-vacuity: allocator at a live initiator id skips it; the new exchange gets the next id -/
+example :
+    let s : Sess := { uid := 0, ctr := 0, exchs := [some { id := 0x1234, role := .io }] }
+    let t : Table := { nextExch := 0x1234, sessions := [s] }
+    t.nextExchId.2 = 0x1235 := by decide
 
 end C15
